@@ -233,3 +233,21 @@ Proof. exact main_stacked_dask_chunks_independent. Qed.
 Print Assumptions C10_stacked_dask_chunks_independent.
 Example C10_stacked_dask_ex : Forall2 (@tiling R) [ex_area; ex_area] [([3], [2; 2]); ([1; 2], [4])].
 Proof. repeat constructor; cbn; lia. Qed.
+
+(* round 2: the two parts reach their common edge along DIFFERENT slicing routes -- one is cut from the parent, the other
+   from the already cropped window parent[a:b] (a chain of two slices), either way round.  Over the reals the routes give
+   the same areas, so for every window and every split row the parts concatenate back to the window.  (In binary64 the
+   shared edge then agrees only up to rounding; that the code's isclose test absorbs this is checked bit-exactly by the
+   correspondence on such inputs and by the oracle key C10.split_concat.chain_parts.) *)
+Theorem C10_split_concat_routes : forall g a b k, wf_g g -> 0 <= a -> a < k -> k < b -> b <= gheight g ->
+  let win := gen_area_getitem RO g (rows_key a b) in
+  (exists m, gen_concatenate_area_defs RO (gen_area_getitem RO g (rows_key a k))
+                                          (gen_area_getitem RO win (rows_key (k - a) (b - a))) 0 = Some m /\
+             g_area m = g_area win /\ g_crs m = g_crs g) /\
+  (exists m, gen_concatenate_area_defs RO (gen_area_getitem RO win (rows_key 0 (k - a)))
+                                          (gen_area_getitem RO g (rows_key k b)) 0 = Some m /\
+             g_area m = g_area win /\ g_crs m = g_crs g).
+Proof. exact main_split_concat_routes. Qed.
+Print Assumptions C10_split_concat_routes.
+Example C10_routes_ex : wf_g ex_area /\ 0 <= 0 /\ 0 < 1 /\ 1 < 3 /\ 3 <= gheight ex_area.
+Proof. split; [exact C10_ex_wf|cbn; lia]. Qed.
